@@ -6,8 +6,18 @@ open SoupVerif
 #print axioms C07.paths_le
 #print axioms C07.paths_le_work
 #print axioms C07.work_poly
+#print axioms C07.asciiEnv_ok
+#print axioms C07.pyFoldEnv_ok
+#print axioms C07.all_safe_ascii
+#print axioms C07.all_safe_py
 #print axioms C07.all_safe
 #print axioms C07.consts_closed
+#print axioms C07.tokenize_poly_of
+#print axioms C07.tokenize_paths_poly_of
 #print axioms C07.tokenize_poly
+#print axioms C07.tokenize_poly_py
+#print axioms C07.tokenize_poly_nosp
 #print axioms C07.tokenize_poly_ascii
 #print axioms C07.tokenize_paths_poly
+#print axioms C07.tokenize_paths_poly_py
+#print axioms C07.tokenize_paths_poly_ascii
